@@ -217,6 +217,10 @@ def r20_3(ctx, repo):
                 continue
 
             def rev_of(e):
+                if isinstance(e, ast.Call) and U(e.func) in (
+                        'np.flip', 'np.flipud') and len(e.args) == 1 \
+                        and not e.keywords:
+                    return U(e.args[0])
                 return U(e.value) if isinstance(e, ast.Subscript) and U(
                     e.slice).replace(' ', '') == '::-1' else None
             ok = True
